@@ -1,8 +1,10 @@
 /-
 C06 for the code as translated (T1): Frame.Validate, encodeFrame, decodeFrame, the flag / ID getters and the error-frame
 getters of pkg/socketcan/frame.go, written as Lean definitions by harness/cmd/go2lean on every run and tied to
-Model/Frame.lean by Bridge/FrameGo.lean and Bridge/DataGo.lean for every frame.  The 16-byte layout step
-(marshalBinary / unmarshalBinary work on byte slices) is the model's; it is tied by the correspondence run.
+Model/Frame.lean by Bridge/FrameGo.lean and Bridge/DataGo.lean for every frame, and marshalBinary / unmarshalBinary on
+byte slices of at least 16 bytes (the translator models the first 16 bytes of a slice and its length).  `codeWire` /
+`codeUnwire` are the translated transmit and receive paths end to end: what `Transmitter.TransmitFrame` hands to
+`conn.Write` and what `Receiver.Frame` returns for a 16-byte block.
 -/
 import CanVerif.Props.C06
 import CanVerif.Bridge.FrameGo
@@ -61,5 +63,50 @@ theorem C06_code_roundtrip (g : Gen.Go.frame) (cf : Gen.Go.Frame) (hv : Frame_Va
   unfold unwire wire at rt
   rw [marshal_unmarshal] at rt
   rw [(bridge_sc_decode _).1, (bridge_sc_encode g cf).1]; exact rt
+
+/-- the translated transmit path: `var scf frame; scf.encodeFrame(f); data := make([]byte, 16); scf.marshalBinary(data)` -/
+def codeWire (cf : Gen.Go.Frame) : BitVec 128 :=
+  frame_marshalBinary_recv (frame_encodeFrame_recv ⟨0, 0, 0⟩ cf) 0#128 16#64
+
+/-- the translated receive path: `r.frame = frame{}; r.frame.unmarshalBinary(block); r.frame.decodeFrame()` -/
+def codeUnwire (b : BitVec 128) : Gen.Go.Frame :=
+  frame_decodeFrame_ret (frame_unmarshalBinary_recv ⟨0, 0, 0⟩ b 16#64)
+
+theorem codeWire_eq (cf : Gen.Go.Frame) : codeWire cf = wire (frameOf cf) := by
+  unfold codeWire wire
+  rw [bridge_sc_marshal_zero _ _ (by decide), (bridge_sc_encode _ cf).1]
+
+theorem codeUnwire_eq (b : BitVec 128) : frameOf (codeUnwire b) = unwire b := by
+  unfold codeUnwire unwire
+  rw [(bridge_sc_decode _).1, (bridge_sc_unmarshal _ b _ (by decide)).1]
+
+/-- the 16 bytes the translated transmit path writes: ID and flags, length, zero padding, data -/
+theorem C06_code_tx_layout (cf : Gen.Go.Frame) :
+    (∀ i, ((codeWire cf).setWidth 32).getLsbD i =
+        (cf.ID.getLsbD i || (cf.IsRemote && decide (i = 30)) || (cf.IsExtended && decide (i = 31)))) ∧
+    ((codeWire cf) >>> 32).setWidth 8 = cf.Length ∧
+    ((codeWire cf) >>> 40).setWidth 24 = 0#24 ∧
+    ((codeWire cf) >>> 64).setWidth 64 = cf.Data := by
+  rw [codeWire_eq]; exact C06_tx_layout (frameOf cf)
+
+/-- what the translated receive path returns for every one of the 2^128 blocks -/
+theorem C06_code_rx_block (b : BitVec 128) :
+    (codeUnwire b).IsExtended = b.getLsbD 31 ∧ (codeUnwire b).IsRemote = b.getLsbD 30 ∧
+    (∀ i, (codeUnwire b).ID.getLsbD i = (b.getLsbD i && decide (i < (if b.getLsbD 31 then 29 else 11)))) ∧
+    (codeUnwire b).Length = (b >>> 32).setWidth 8 ∧ (codeUnwire b).Data = (b >>> 64).setWidth 64 := by
+  have h := C06_rx b
+  rw [← codeUnwire_eq] at h
+  simp only [frameOf] at h
+  exact ⟨h.1, h.2.1, h.2.2.1, h.2.2.2.1, h.2.2.2.2.1⟩
+
+/-- end to end: what the translated receiver decodes from what the translated transmitter wrote is the frame, for every
+valid frame -/
+theorem C06_code_wire_roundtrip (cf : Gen.Go.Frame) (hv : Frame_Validate_ret cf = false) :
+    frameOf (codeUnwire (codeWire cf)) = frameOf cf := by
+  have hv' : (frameOf cf).validate = true := by
+    have := (bridge_validate cf).1
+    simp only [frameOf]
+    rw [this] at hv; simpa using hv
+  rw [codeUnwire_eq, codeWire_eq]; exact C06_roundtrip (frameOf cf) hv'
 
 end CanVerif
